@@ -1,15 +1,39 @@
 //! Property id -> check, and replay dispatch.
+use crate::checks_e1::Variant;
 use crate::report::Report;
+use crate::rng;
 
 pub fn run(prop: &str, tier: &str) -> Option<Report> {
     Some(match prop {
-        "C19" => crate::checks_e1::c19(tier),
         "C08" => crate::checks_e1::c08(tier),
         "C09" => crate::checks_e1::c09(tier),
         "C10" => crate::checks_e1::c10(tier),
         "C11" => crate::checks_e1::c11(tier),
+        "C12" => crate::checks_e1b::c12(tier),
         "C13" => crate::checks_e1::c13(tier),
-        _ => return None,
+        "C15" => crate::checks_e1b::c15(tier),
+        "C16" => crate::checks_e1b::c16(tier),
+        "C19" => crate::checks_e1::c19(tier),
+        _ => return crate::registry_ext::run(prop, tier),
+    })
+}
+
+/// The E1 variants of a property (for `verif replay`).
+pub fn e1_variants(prop: &str, tier: &str) -> Option<Vec<Variant>> {
+    let w43 = rng::menu(4, 3);
+    let w54 = rng::menu(5, 4);
+    Some(match prop {
+        "C08" => crate::checks_e1::c08_variants(tier, &w43),
+        "C09" => crate::checks_e1::c09_variants(tier, &w43),
+        "C10" => crate::checks_e1::c10_variants(tier, &w43),
+        "C11" => crate::checks_e1::c11_variants(tier, &w43),
+        "C13" => crate::checks_e1::c13_variants(tier, &w43),
+        "C19" => crate::checks_e1::c19_variants(tier, &w43),
+        "C12" => crate::checks_e1b::c12_variants(tier, &w54),
+        "C15" => crate::checks_e1b::c15_variants(tier, &w54),
+        "C16" => crate::checks_e1b::c16_variants(tier, &w54),
+        "C07" => crate::checks_e1b::c07_variants(tier, &w54),
+        _ => return crate::registry_ext::e1_variants(prop, tier),
     })
 }
 
@@ -28,9 +52,17 @@ pub fn replay(path: &str) -> i32 {
     match r["engine"].as_str() {
         Some("e1") => {
             let prop = r["property"].as_str().unwrap_or("");
-            let tier = r["tier"].as_str().unwrap_or("quick");
             let label = r["variant"].as_str().unwrap_or("");
-            let Some(spec) = crate::checks_e1::find_variant(prop, tier, label) else {
+            let mut spec = None;
+            for tier in [r["tier"].as_str().unwrap_or("quick"), "thorough", "quick"] {
+                if let Some(vs) = e1_variants(prop, tier) {
+                    if let Some(v) = vs.into_iter().find(|v| v.spec.label == label) {
+                        spec = Some(v.spec);
+                        break;
+                    }
+                }
+            }
+            let Some(spec) = spec else {
                 eprintln!("unknown variant {label} of {prop}");
                 return 2;
             };
@@ -52,9 +84,6 @@ pub fn replay(path: &str) -> i32 {
                 }
             }
         }
-        other => {
-            eprintln!("replay for engine {other:?} is handled by the owning check");
-            crate::registry_ext::replay(&doc)
-        }
+        _ => crate::registry_ext::replay(&doc),
     }
 }
